@@ -49,6 +49,10 @@ def mutants(prog):
         ("dice weight dropped", L, "dice_score", "intersection = dot_channels(y_pred, y, weight=weight)", "intersection = dot_channels(y_pred, y)", "T16."),
         ("tversky roles swapped", L, "tversky_index", "fps = dot_channels(y_pred, 1 - y, weight=weight).mul_(alpha)\n    fns = dot_channels(1 - y_pred, y, weight=weight).mul_(beta)", "fps = dot_channels(y_pred, 1 - y, weight=weight).mul_(beta)\n    fns = dot_channels(1 - y_pred, y, weight=weight).mul_(alpha)", "T16."),
         ("tversky fn uses prediction", L, "tversky_index", "fns = dot_channels(1 - y_pred, y, weight=weight).mul_(beta)", "fns = dot_channels(1 - y, y_pred, weight=weight).mul_(beta)", "T16."),
+        ("lcc local mean counts padding", L, "lcc_loss", "padding=None, count_include_pad=False)", "padding=None)", "T16.invariance"),
+        ("ncc not centred", L, "ncc_loss", "source = source.sub(source_mean)", "source = source", "T16.invariance") if False else
+        ("wlcc wrapper mask wiring", "deepali.losses.image", "WLCC.forward", "target_mask=target_mask", "target_mask=source_mask", "T16.module-functional"),
+        ("nmi wrapper not normalized", "deepali.losses.image", "NMI.__init__", "normalized=True", "normalized=False", "T16.module-functional"),
         ("tversky loss not one minus", L, "tversky_loss", "loss = one.sub(ti)", "loss = ti", "T16."),
     ]
     for name, mod, fn, old, new, expect in specs:
